@@ -94,3 +94,131 @@ pub proof fn lemma_dc_two_quotients(lo: int, hi: int, q1: int, r1: int, q0: int,
     assert((q0 + q1 * B()) * d == d * q0 + (d * q1) * B()) by (nonlinear_arith);
     assert((d * q1 + r1) * B() == (d * q1) * B() + r1 * B()) by (nonlinear_arith);
 }
+
+/// undo the normalization of a remainder: rs == (x·p) % (o·p)  ==>  p | rs and rs / p is the remainder of x by o
+pub proof fn lemma_dc_rem_unshift(x: int, o: int, p: int, dn: int, rs: int)
+    requires x >= 0, p >= 1, dn > 0, dn % p == 0, o == dn / p, rs == (x * p) % dn,
+    ensures rs % p == 0, is_remainder(x, o, rs / p), 0 <= rs < dn,
+{
+    vstd::arithmetic::div_mod::lemma_fundamental_div_mod(dn, p);
+    assert(p * o == o * p) by (nonlinear_arith);
+    assert(x * p >= 0) by (nonlinear_arith) requires x >= 0, p >= 1;
+    vstd::arithmetic::div_mod::lemma_fundamental_div_mod(x * p, dn);
+    vstd::arithmetic::div_mod::lemma_mod_bound(x * p, dn);
+    let q = (x * p) / dn;
+    assert(dn * q == q * (o * p)) by (nonlinear_arith) requires dn == o * p;
+    lemma_dg_unshift_rem(x, o, q, rs, p);
+}
+
+/// everything the arms of `x % &ConstDivisorRepr` need, for a dividend of value x occupying nw words
+/// (Small: nw == 2, x < B²; Large: x < B^nw), stated on the results the callee contracts promise
+pub proof fn lemma_dc_rem_arms(x: int, nw: int, c: ConstDivisorRepr)
+    requires c.wf(), x >= 0, nw >= 2, x < pw(nw),
+    ensures
+        match c {
+            ConstDivisorRepr::Single(d) => {
+                let p = pow2(d.0.spec_shift() as int);
+                let rs = (x * p) % d.0.dn();
+                0 <= rs < B() && is_remainder(x, c.value(), ((rs as Word) >> d.0.spec_shift()) as int)
+            },
+            ConstDivisorRepr::Double(d) => {
+                let p = pow2(d.0.spec_shift() as int);
+                let rs = (x * p) % d.0.dn();
+                0 <= rs < B() * B() && is_remainder(x, c.value(), ((rs as DoubleWord) >> d.0.spec_shift()) as int)
+            },
+            ConstDivisorRepr::Large(d) => nw == 2 ==> is_div_rem(x, c.value(), 0, x),
+        },
+{
+    match c {
+        ConstDivisorRepr::Single(d) => {
+            let s = d.0.spec_shift();
+            let p = pow2(s as int);
+            let rs = (x * p) % d.0.dn();
+            lemma_sh_pow2_pos(s as int);
+            lemma_dc_rem_unshift(x, d.0.orig(), p, d.0.dn(), rs);
+            lemma_sh_shr_div_w(rs as Word, s);
+        },
+        ConstDivisorRepr::Double(d) => {
+            let s = d.0.spec_shift();
+            let p = pow2(s as int);
+            let rs = (x * p) % d.0.dn();
+            lemma_sh_pow2_pos(s as int);
+            lemma_dc_rem_unshift(x, d.0.orig(), p, d.0.dn(), rs);
+            lemma_dd_shr_div(rs as DoubleWord, s);
+        },
+        ConstDivisorRepr::Large(d) => {
+            if nw == 2 {
+                // x < B² <= B^(n-1) <= divisor
+                let n = d.normalized_divisor@.len() as int;
+                lemma_pw_add(2, n - 3);
+                lemma_pw_pos(n - 3);
+                assert(pw(2) * pw(n - 3) >= pw(2)) by (nonlinear_arith) requires pw(n - 3) >= 1, pw(2) >= 0;
+                assert(is_div_rem(x, d.orig(), 0, x));
+            }
+        },
+    }
+}
+
+/// a well-formed magnitude of nw words (Small counts as 2) is below B^nw
+pub proof fn lemma_dc_typed_bound(t: TypedRepr)
+    requires t.wf(),
+    ensures 0 <= t.v() < pw(t.nwords()), t.nwords() >= 2,
+{
+    assert(pw(2) == B() * pw(1) && pw(1) == B() * pw(0) && pw(0) == 1);
+    match t {
+        TypedRepr::Small(d) => {}
+        TypedRepr::Large(b) => { lemma_valn_bound(b@, b@.len() as int); }
+    }
+}
+pub proof fn lemma_dc_typedref_bound(t: TypedReprRef)
+    requires t.wf(),
+    ensures 0 <= t.v() < pw(t.nwords()), t.nwords() >= 2,
+{
+    assert(pw(2) == B() * pw(1) && pw(1) == B() * pw(0) && pw(0) == 1);
+    match t {
+        TypedReprRef::RefSmall(d) => {}
+        TypedReprRef::RefLarge(w) => { lemma_valn_bound(w@, w@.len() as int); }
+    }
+}
+
+/// a dividend with fewer words than the (n-word, top word non-zero) divisor is its own remainder
+pub proof fn lemma_dc_shorter(s: Seq<Word>, n: int, o: int)
+    requires s.len() < n, o >= pw(n - 1),
+    ensures is_div_rem(val(s), o, 0, val(s)), is_quotient(val(s), o, 0), is_remainder(val(s), o, val(s)),
+{
+    let len = s.len() as int;
+    lemma_valn_bound(s, len);
+    lemma_pw_add(len, n - 1 - len);
+    lemma_pw_pos(n - 1 - len);
+    assert(pw(len) * pw(n - 1 - len) >= pw(len)) by (nonlinear_arith) requires pw(n - 1 - len) >= 1, pw(len) >= 0;
+    assert(is_div_rem(val(s), o, 0, val(s)));
+}
+
+/// Large / Large through a ConstDivisor: after div_rem_unshifted_in_place (l1 = [r_s (n words), Q]) the quotient
+/// buffer qb = Q ++ [q_top unless 0] holds the quotient of a by o, and r_s is a multiple of p with r_s / p the remainder
+pub proof fn lemma_dc_large_quotient(a: int, o: int, p: int, m: int, l1: Seq<Word>, n: int, q_top: Word, qb: Seq<Word>)
+    requires
+        p >= 1, m % p == 0, o == m / p, 0 <= n <= l1.len(),
+        a * p == (val(l1.subrange(n, l1.len() as int)) + (q_top as int) * pw(l1.len() - n)) * m + val(l1.subrange(0, n)),
+        val(l1.subrange(0, n)) < m,
+        q_top != 0 ==> qb == l1.subrange(n, l1.len() as int).push(q_top),
+        q_top == 0 ==> qb == l1.subrange(n, l1.len() as int),
+    ensures
+        val(l1.subrange(0, n)) % p == 0,
+        is_div_rem(a, o, val(qb), val(l1.subrange(0, n)) / p),
+        is_quotient(a, o, val(qb)),
+{
+    let hi = l1.subrange(n, l1.len() as int);
+    let k = l1.len() - n;
+    if q_top != 0 {
+        lemma_ds_top1(qb);
+        lemma_valn_ext(qb, hi, k);
+    } else {
+        assert((q_top as int) * pw(k) == 0) by (nonlinear_arith) requires q_top as int == 0;
+    }
+    assert(val(qb) == val(hi) + (q_top as int) * pw(k));
+    vstd::arithmetic::div_mod::lemma_fundamental_div_mod(m, p);
+    assert(p * (m / p) == o * p) by (nonlinear_arith) requires o == m / p;
+    lemma_valn_bound(l1.subrange(0, n), n);
+    lemma_dg_unshift_rem(a, o, val(qb), val(l1.subrange(0, n)), p);
+}
